@@ -24,15 +24,15 @@ type Reply struct {
 }
 
 type Result struct {
-	Replies []Reply
-	Class   string // stanzas | key | incorrect | error | plugin-error
-	ErrText string // for plugin-error: the plugin's text
-	Stanzas []refage.Stanza
-	Labels  []string
+	Replies   []Reply
+	Class     string // stanzas | key | incorrect | error | plugin-error
+	ErrText   string // for plugin-error: the plugin's text
+	Stanzas   []refage.Stanza
+	Labels    []string
 	HasLabels bool
-	Key     []byte
-	EmptyKey bool // file-key with an empty body was the accepted key: final class may be error or incorrect
-	State   string // terminal model state label
+	Key       []byte
+	EmptyKey  bool   // file-key with an empty body was the accepted key: final class may be error or incorrect
+	State     string // terminal model state label
 }
 
 // Parse splits the plugin's output into stanzas with the reference recogniser; ok=false from the point
